@@ -288,6 +288,29 @@ func runC15(c *Ctx) {
 							st := st
 							judge(st, st.Val, func(fact EdgePred) bool { return guardedBy(st, nil, fact) })
 						}
+						// the deferred literal calls the closer on EVERY one of its paths: "closed if and only if requested"
+						// holds for failing calls too (a closure that returns early on an error leaves the stream open)
+						if df := deferredBody(d); df != nil {
+							callsCloser := func(in ssa.Instruction) bool {
+								call, isCall := in.(*ssa.Call)
+								if !isCall || call.Call.IsInvoke() {
+									return false
+								}
+								ad, isLd := derefLoad(call.Call.Value)
+								if !isLd {
+									return false
+								}
+								fv, isFV := ad.(*ssa.FreeVar)
+								return isFV && freeVarBinding(fv) == ssa.Value(al)
+							}
+							skips := false
+							for _, r := range returnsOf(df) {
+								if pathExists(df, nil, r, nil, callsCloser) {
+									skips = true
+								}
+							}
+							c.obI("R15.2", d, "deferred-closer-runs-on-every-exit", !skips, "the deferred function calls the closer on each of its paths (whatever the codec's result was)", "the deferred function can return without calling the closer: with the closing option set, a failing call leaves the stream open")
+						}
 					}
 					continue
 				}
